@@ -141,3 +141,87 @@ func randomScenario(r *lib.Rand, big bool) Scenario {
 	}
 	return Scenario{Family: "random", Steps: st}
 }
+
+// churnSequences enumerates every valid sequence of length ≤ maxLen over
+// {S = Subscribe the next slot (prompt reader), Ci = cancel slot i, B = one Broadcast} with at most
+// `slots` subscribers that (1) contains a Subscribe after a cancel (a join after a leave), (2) ends
+// with a Broadcast and (3) leaves at least one subscriber uncancelled.  This is the small-scope
+// exhaustive family for subscriber-identity bugs (ids reused after a removal, wrong entry removed).
+func churnSequences(maxLen, slots int) [][]string {
+	var out [][]string
+	var rec func(seq []string, nsub int, cancelled []bool, joinAfterLeave, anyCancel bool)
+	rec = func(seq []string, nsub int, cancelled []bool, joinAfterLeave, anyCancel bool) {
+		if n := len(seq); n > 0 && seq[n-1] == "B" && joinAfterLeave {
+			live := false
+			for i := 0; i < nsub; i++ {
+				live = live || !cancelled[i]
+			}
+			if live {
+				out = append(out, append([]string(nil), seq...))
+			}
+		}
+		if len(seq) == maxLen {
+			return
+		}
+		if nsub < slots {
+			rec(append(seq, "S"), nsub+1, append(append([]bool(nil), cancelled...), false), joinAfterLeave || anyCancel, anyCancel)
+		}
+		for i := 0; i < nsub; i++ {
+			if !cancelled[i] {
+				c := append([]bool(nil), cancelled...)
+				c[i] = true
+				rec(append(seq, "C"+lib.Itoa(i)), nsub, c, joinAfterLeave, true)
+			}
+		}
+		if nsub > 0 {
+			rec(append(seq, "B"), nsub, cancelled, joinAfterLeave, anyCancel)
+		}
+	}
+	rec(nil, 0, nil, false, false)
+	return out
+}
+
+func churnScenario(family string, seq []string) Scenario {
+	var st []Step
+	nsub, g := 0, 0
+	for _, op := range seq {
+		switch {
+		case op == "S":
+			st = append(st, sub(nsub, "prompt"))
+			nsub++
+		case op == "B":
+			g++
+			st = append(st, bgo(g, 0, 1), quiesce)
+		default: // Ci: cancel, then give the forwarder time to remove itself from the list
+			h := int(op[1] - '0')
+			st = append(st, cancelS(h), settle(1))
+		}
+	}
+	st = append(st, quiesce, drain, closeS(1), quiesce)
+	return Scenario{Family: family, Steps: st}
+}
+
+// randomChurn: longer random sequences over 4 slots, mixed reader kinds for the stayers.
+func randomChurn(r *lib.Rand, length int) Scenario {
+	var seq []string
+	nsub := 0
+	cancelled := []bool{}
+	for len(seq) < length {
+		switch k := r.Intn(5); {
+		case k <= 1 && nsub < 4:
+			seq = append(seq, "S")
+			cancelled = append(cancelled, false)
+			nsub++
+		case k == 2 && nsub > 0:
+			i := r.Intn(nsub)
+			if !cancelled[i] {
+				cancelled[i] = true
+				seq = append(seq, "C"+lib.Itoa(i))
+			}
+		case nsub > 0:
+			seq = append(seq, "B")
+		}
+	}
+	seq = append(seq, "B")
+	return churnScenario("churn-random", seq)
+}
